@@ -82,6 +82,11 @@ CLAIMED["C20"] = ("exploration",
    "cgroup2 controllers (memory.max, pids.max, cpu.max) cannot be enforced on the real v2 tree of this machine (bound to v1): written values are checked on the fake tree only. Limits the kernel refuses (child above parent) are counted, not judged.",
    "stateful / model-based property testing (rapid) on the real cgroup hierarchies + generated-content differential for readers", "§3 C20")
 
+CLAIMED["C12"] = ("exploration",
+   "Trees: generated process trees (forks, double-forked daemons with setsid, threads, ignored signals, setsid/setpgid in the pid-namespace based runners, descendants sleeping / spinning / exiting un-waited) under each runner, the main process exiting, crashing or being cancelled; within 2 s of the run returning nothing carrying the run's tag is alive on the host and no tagged zombie belongs to the host process or the container init; the init has no children and runs the next program. Histories: 5..30 actions over up to 3 environments in one host process (ptrace / namespace runs, Build, failing Build, Destroy, Execve ok / failing before fork / failing after the sync / cancelled / failing callback with trivial programs or trees, Open with kept or closed results, Symlink, Delete, Reset, Ping); after every action descriptors, goroutines and children of the host process equal baseline + per-environment constants + kept files, and every live init's descriptors and children equal their post-Build baseline.",
+   "Processes are found by a tag in argv (survives re-parenting and pid namespaces). Orphans re-parented to the VM's init and awaiting its reaping are outside the statement. The settle loop (<= 2 s, two forced GCs) accounts for asynchronous reaping and finalizers; the harness passes an *os.File as Builder.Stderr.",
+   "property-based testing (rapid): generated process trees and stateful histories with resource-counter invariants", "§3 C12")
+
 NOT_YET = {}
 
 def main():
